@@ -71,14 +71,31 @@ theorem iter_spec (t : T) (h : Aligned t) :
 `_enum_rows`). -/
 theorem select_spec (t : T) (cols : List Nat) : select t cols = selectL t.width (abs t) cols := rfl
 
--- FULL STATEMENT (not proved): ∀ sl, Aligned t → iterSlice t sl = pyGetSlice (abs t) sl
--- (slices with any start/stop/step).  Missing: the arithmetic lemma that filtering the ascending
--- positions by membership in `rangeList a b st` and reversing for st < 0 enumerates `rangeList a b st`.
--- Proved: the slices `table[p:]` (the ones `commit` itself uses); the general clause is covered by the
--- correspondence run and the direct oracle (slices with start/stop/step in -8..8 ∪ None after every step).
-/-- `table[p:]` is `list[p:]`. -/
-theorem slice_from_spec_partial (t : T) (p : Nat) (h : Aligned t) (hp : p ≤ len t) :
+/-- `table[start:stop:step]` for EVERY slice — any start, stop, step (positive, negative, `None`,
+out of range; step 0 is the `ValueError`) — is `list[start:stop:step]`: the implementation's "walk the
+positions in ascending order, keep the members of `range(*slice.indices(len))`, reverse for a negative
+step" enumerates that range (`Verif.C10.Slice.filter_positions_eq`). -/
+theorem slice_spec (t : T) (sl : Slice) (h : Aligned t) : iterSlice t sl = pyGetSlice (abs t) sl :=
+  L.iterSlice_eq t sl h
+
+/-- special case used by `commit`: `table[p:]` is `list[p:]`. -/
+theorem slice_from_spec (t : T) (p : Nat) (h : Aligned t) (hp : p ≤ len t) :
     iterSlice t ⟨some (p : Int), none, none⟩ = .ok ((abs t).drop p) := L.iterSlice_from t p h hp
+
+/-- the list-level slice assignment that `step_refines` refers to IS Python's extended-slice
+assignment: for a step other than 1 (negative steps included) and indices `(a, b, st)` adjusted to the
+length, `xs[sl] = vals` raises `ValueError` unless `len(vals) = len(range(a, b, st))`; otherwise the
+length is unchanged, position `range(a, b, st)[k]` holds `vals[k]` for every `k`, and every position
+outside the range is untouched.  (For step 1 / `None` the result is `xs[:a] + vals + xs[max(a,b):]`
+by definition, `Verif.Py.setSliceSimple`.) -/
+theorem setSlice_extended_spec (xs : List Row) (sl : Slice) (vals : List Row) (a b st : Int)
+    (hidx : sliceIndices sl xs.length = some (a, b, st)) (hst : st ≠ 1) :
+    if vals.length = (rangeList a b st).length then
+      ∃ ys, pySetSlice xs sl vals = .ok ys ∧ ys.length = xs.length
+        ∧ (∀ k (hk : k < (rangeList a b st).length), ys[((rangeList a b st)[k]).toNat]? = vals[k]?)
+        ∧ (∀ j : Nat, (j : Int) ∉ rangeList a b st → ys[j]? = xs[j]?)
+    else pySetSlice xs sl vals = .error .valueError :=
+  L.pySetSlice_extended xs sl vals a b st hidx hst
 
 /-! ## "Commit makes the stored relation equal to that list and committing again changes nothing,
 reload returns to the last committed state, in_transaction is false after either" -/
